@@ -125,6 +125,69 @@ Theorem C11_round_one_task_per_binding : forall i ops h,
 Proof. exact round_tasks. Qed.
 Print Assumptions C11_round_one_task_per_binding.
 
+(* ---- firings that coincide while the consumer of the schedule events is busy ----
+   ScheduleCh is ONE channel of capacity 1 for all crontabs; the cron library starts every
+   due job in its own goroutine; the job is a blocking send. *)
+
+(* the channel loses nothing and repeats nothing.  [k]: any channel state (buffer, parked
+   senders); the jobs sending the strings [cs] - different crontabs, one crontab several
+   times - are started together and reach their send in ANY order [cs'] while nobody
+   receives; then the consumer receives until nothing arrives, the runtime waking parked
+   senders in ANY order [picks]: it receives exactly what was pending plus the string of
+   every started job, each once, and no goroutine stays parked *)
+Theorem C11_coinciding_firings_all_delivered : forall picks cs cs' k,
+  Permutation cs cs' ->
+  Permutation (fst (ch_drain_with picks (ch_start cs' k))) (ch_pending k ++ cs)
+  /\ snd (ch_drain_with picks (ch_start cs' k)) = ch_empty.
+Proof. exact concurrent_all_delivered. Qed.
+Print Assumptions C11_coinciding_firings_all_delivered.
+
+(* the sends block: in any reachable state, of the jobs started while nobody receives as
+   many return as the buffer has room for (capacity 1), all the others stay parked in
+   their send until the consumer receives *)
+Theorem C11_sends_block : forall i ops cs,
+  let k := s_ch (fold_left (fun s o => fst (sys_step i s o)) ops (sys_init i)) in
+  length (buf (ch_start cs k)) = Nat.min ch_cap (length (buf k) + length cs)
+  /\ (length (buf (ch_start cs k)) + length (parked (ch_start cs k)) = length (buf k) + length (parked k) + length cs)%nat.
+Proof. exact sends_block. Qed.
+Print Assumptions C11_sends_block.
+
+(* end to end, after ANY sequence of operations (firings still waiting included): the jobs
+   of the crontabs [cs] are started together, the consumer then catches up.  Hook h gets
+   for EVERY firing - those that were waiting and those started now, a crontab as often as
+   it fired - exactly one task for each of its enabled bindings with that crontab, carrying
+   that binding's name, group, allowFailure, snapshot list and queue, and no other task;
+   in whatever order the goroutines reach their send and are woken *)
+Theorem C11_coinciding_firings_one_task_per_binding : forall i ops h cs cs' picks,
+  let s := fold_left (fun s o => fst (sys_step i s o)) ops (sys_init i) in
+  let st := fold_left (spec_step (i_hooks i)) ops (spec_init (i_hooks i)) in
+  let bs := nth h (i_hooks i) [] in
+  NoDup (map b_id bs) -> Permutation cs cs' ->
+  let received := fst (ch_drain_with picks (ch_start cs' (s_ch s))) in
+  Permutation received (ch_pending (s_ch s) ++ cs)
+  /\ snd (ch_drain_with picks (ch_start cs' (s_ch s))) = ch_empty
+  /\ Permutation
+       (map (task_of_info (N.of_nat h)) (snd (tick_hook received (nth h (s_links s) []))))
+       (if nth h (snd st) false
+        then flat_map (fun c => map (task_of_binding (N.of_nat h)) (filter (fun b => ct_eqb (b_crontab b) c) bs))
+                      (ch_pending (s_ch s) ++ cs)
+        else []).
+Proof. exact burst_tasks. Qed.
+Print Assumptions C11_coinciding_firings_one_task_per_binding.
+
+(* sm.Stop() cancels the manager's context and nothing in the modelled code looks at it
+   (only the goroutine of Start() does, to stop the cron scheduler): whatever step comes
+   after a Stop does what it would have done without it - in particular a job that is run
+   after the context was cancelled still sends, and its firing is handled *)
+Theorem C11_stop_is_not_looked_at : forall i s o b,
+  let s2 := mkSys (s_links s) (s_sm s) (s_ch s) b in
+  snd (sys_step i s2 o) = snd (sys_step i s o)
+  /\ s_links (fst (sys_step i s2 o)) = s_links (fst (sys_step i s o))
+  /\ s_sm (fst (sys_step i s2 o)) = s_sm (fst (sys_step i s o))
+  /\ s_ch (fst (sys_step i s2 o)) = s_ch (fst (sys_step i s o)).
+Proof. exact stop_is_not_looked_at. Qed.
+Print Assumptions C11_stop_is_not_looked_at.
+
 (* non-vacuity.  Crontab 1 gets ids 7 and 8, 7 is removed twice, an unknown pair is
    removed, crontab 4 is unparsable: one cron entry (id 1) for crontab 1 while 8 is
    registered; after removing 8 and adding again a fresh entry (id 2).  A hook with two
@@ -166,4 +229,30 @@ Example C11_hyp_met :
 Proof.
   repeat split; try (vm_compute; reflexivity); try (apply nodupb_NoDup; vm_compute; reflexivity).
   discriminate.
+Qed.
+
+(* non-vacuity of the coinciding-firings theorems.  Two hooks on different crontabs (c1,
+   c2), both enabled; the jobs of cron entry 0 (c1), entry 1 (c2) and entry 0 again are
+   started together: one send fills the buffer, two goroutines park; the consumer then
+   receives three strings and hook 0 gets two tasks (c1 fired twice), hook 1 one.  With the
+   runtime waking the LAST parked sender first the strings arrive in another order, the
+   tasks are the same. *)
+Definition ex_burst : input :=
+  mkIn [ [mkB 11 c1 101 0 false [] 0]; [mkB 21 c2 201 5 true [101] 2] ]%N
+       [c4] [c1; c2] [OEnable 0; OEnable 1; OStart [0; 1; 0]; ODrain]%N.
+
+Example C11_burst_hyp_met :
+  ch_start [c1; c2; c1] ch_empty = mkCh [c1] [c2; c1]
+  /\ ch_drain_all (mkCh [c1] [c2; c1]) = ([c1; c2; c1], ch_empty)
+  /\ fst (ch_drain_with (fun _ => 5%nat) (mkCh [c1] [c2; c1])) = [c1; c1; c2]
+  /\ Permutation [c1; c2; c1] [c2; c1; c1]
+  /\ NoDup (map b_id (nth 0 (i_hooks ex_burst) [])) /\ NoDup (map b_id (nth 1 (i_hooks ex_burst) []))
+  /\ map (fun o => (o_chlen o, o_parked o, o_recv o)) (run_model ex_burst)
+     = [ (0, 0, []); (0, 0, []); (1, 2, []); (0, 0, [c1; c2; c1]) ]%N
+  /\ map (fun x => map (task_of_info 0) (snd x)) (o_fire (last (run_model ex_burst) (mkObs [] [] [] [] 0 0)))
+     = [ [task_of_binding 0 (mkB 11 c1 101 0 false [] 0); task_of_binding 0 (mkB 11 c1 101 0 false [] 0)];
+         [task_of_info 0 (info_of_binding (mkB 21 c2 201 5 true [101] 2))] ]%N.
+Proof.
+  repeat split; try (vm_compute; reflexivity); try (apply nodupb_NoDup; vm_compute; reflexivity).
+  apply perm_swap.
 Qed.
